@@ -72,7 +72,11 @@ fn num_v(valid: Vec<&'static str>, invalid: Vec<&'static str>) -> BoxedStrategy<
 fn red_v() -> BoxedStrategy<Red> {
     prop_oneof![
         55 => Just(Red::Absent),
-        38 => (0u32..=3000, 0u32..=3000, 0u32..=3000).prop_map(|(a, b, c)| Red::Valid([a, b, c])),
+        38 => {
+            // each component is often exactly 0 or 1 (a factor "not given" / the forced (1, 0, 0) shape)
+            let comp = || prop_oneof![3 => Just(0u32), 1 => Just(1000u32), 6 => 0u32..=3000];
+            (comp(), comp(), comp()).prop_map(|(a, b, c)| Red::Valid([a, b, c]))
+        },
         7 => select(vec!["abc", "1.0 x 2", "uno dos tres"]).prop_map(|s| Red::Invalid(s.to_string())),
     ]
     .boxed()
@@ -313,7 +317,7 @@ impl Prop for C19 {
         ]
     }
     fn cases(tier: Tier) -> u32 {
-        tier.pick(640, 30_000)
+        tier.pick(1_600, 30_000)
     }
     fn strategy(_tier: Tier) -> BoxedStrategy<Case> {
         let locs = vec!["PENINSULA", "CANARIAS", "BALEARES", "CEUTAMELILLA"];
